@@ -1,12 +1,32 @@
 """Tables for the check driver: repository packages that receive harnesses and
 the jobs (monitor workloads) that decide each property."""
 
+GOCPTV = "/root/go/pkg/mod/github.com/!the!cacophony!project/go-cptv@v0.0.0-20211109233846-8c32a5d161f7"
+
 PKGS = {
     "motion": {"dir": "motion", "name": "motion", "harness": "motion", "templates": ["kit"]},
     "throttle": {"dir": "throttle", "name": "throttle", "harness": "throttle", "templates": ["kit"]},
     "loglimiter": {"dir": "loglimiter", "name": "loglimiter", "harness": "loglimiter", "templates": ["kit"]},
     "headers": {"dir": "headers", "name": "headers", "harness": "headers", "templates": ["kit"]},
     "recorder-main": {"dir": "cmd/thermal-recorder", "name": "main", "harness": "recorder-main", "templates": ["kit"]},
+    # same package, but go-cptv's file writer is overlaid with a copy that calls
+    # cptv.VerifHook between its file-system steps (crash points inside the dependency)
+    "recorder-main-dephooks": {"dir": "cmd/thermal-recorder", "name": "main", "harness": "recorder-main", "templates": ["kit"], "tags": "verif verifdep",
+                               "dep_patches": [
+                                   {"file": GOCPTV + "/filewriter.go", "edits": [
+                                       ("\tf, err := os.Create(filename)\n\tif err != nil {\n\t\treturn nil, err\n\t}\n\tw, err := NewWriter(filename, c)",
+                                        "\tf, err := os.Create(filename)\n\tif err != nil {\n\t\treturn nil, err\n\t}\n\tverifDepHook(\"cptv.create.first\")\n\tw, err := NewWriter(filename, c)"),
+                                   ]},
+                                   {"file": GOCPTV + "/writer.go", "edits": [
+                                       ("\ntype DualWriter interface {", "\n// VerifHook is set by the verification harness (overlay build only).\nvar VerifHook func(string)\n\nfunc verifDepHook(n string) {\n\tif h := VerifHook; h != nil {\n\t\th(n)\n\t}\n}\n\ntype DualWriter interface {"),
+                                       ("\tcompressedF, err := os.Create(filename)\n", "\tverifDepHook(\"cptv.create.scratch\")\n\tcompressedF, err := os.Create(filename)\n"),
+                                       ("\tw.fileWriter.FlushTemp()\n\n\tfields := NewFieldWriter()", "\tw.fileWriter.FlushTemp()\n\tverifDepHook(\"cptv.close.flushed\")\n\n\tfields := NewFieldWriter()"),
+                                       ("\tcw := w.fileWriter.CompressedWriter()\n", "\tverifDepHook(\"cptv.close.patched\")\n\tcw := w.fileWriter.CompressedWriter()\n"),
+                                       ("\tcompressor.Flush()\n", "\tverifDepHook(\"cptv.close.copied\")\n\tcompressor.Flush()\n\tverifDepHook(\"cptv.close.gzflushed\")\n"),
+                                       ("\tcw.Flush()\n\treturn w.fileWriter.CloseCompressed()", "\tverifDepHook(\"cptv.close.gzclosed\")\n\tcw.Flush()\n\tverifDepHook(\"cptv.close.written\")\n\treturn w.fileWriter.CloseCompressed()"),
+                                       ("\tw.fileWriter.CloseTemp()\n\treturn w.fileWriter.DeleteTemp()", "\tverifDepHook(\"cptv.close.compressed\")\n\tw.fileWriter.CloseTemp()\n\tverifDepHook(\"cptv.close.scratchclosed\")\n\treturn w.fileWriter.DeleteTemp()"),
+                                   ]},
+                               ]},
     "writer-main": {"dir": "cmd/thermal-writer", "name": "main", "harness": "writer-main", "templates": ["kit"]},
 }
 
@@ -139,7 +159,8 @@ PROPS = {
         "level": "fault_enumeration",
         "rule": "Scenarios through the real handleConn + CPTVFileRecorder in a child process (test binary re-executed): S1 one motion recording, S2 two back-to-back, S3 throttle cut, S4 test recording overlapping a motion recording, "
                 "S5 constant recorder on, S6 connection dropped in mid-frame (Stop path), S7 'clear' in mid-recording, S8 test recording and motion recording starting on the same frame (quick: S1,S3,S4,S5,S6,S8). "
-                "An uncrashed run counts the file-recorder hook hits H (after create, after header, before/after each frame write, before Close, between Close and rename, after rename, abort path); then for EVERY n in 0..H the child SIGKILLs itself at hit n. "
+                "An uncrashed run counts the hook hits H - the file recorder's own hooks (after create, after header, before/after each frame write, before Close, between Close and rename, after rename, abort path) and hook calls inserted by build overlay into a copy of go-cptv's file writer "
+                "(between its three file creations; in Close after flush, header patch, gzip copy, gzip flush/close, buffered flush, before/after closing and deleting the scratch file); then for EVERY n in 0..H the child SIGKILLs itself at hit n. "
                 "Oracles: I1 - every *.cptv decodes header to EOF with the stock reader, checked synchronously at every hook inside the child, by a free-running observer goroutine, and by the parent on the directory as found; "
                 "I2 - after the repository's deleteTempFiles the output directory (incl. constant-recordings/) holds complete recordings only, and none was removed. Each (scenario, n) is a case.",
         "assumptions": COMMON_ASSUME + ["process kill only; power-loss durability is not claimed by the property", "crash points inside go-cptv's Close lie between two hooks and are covered only by the free-running observer / random kills",
@@ -147,7 +168,7 @@ PROPS = {
         "level_text": "Fault enumeration over every hook-indexed crash point of each scenario, with a directory scanner + full decode as the oracle before and after the start-up clean-up.",
         "level_note": "Frames of recordings started in different frames are paced >= 2 ms apart as a real camera does (file names have millisecond resolution); S8 is the one same-frame collision production can produce.",
         "technique": "crash-point enumeration with self-SIGKILL at hooks + directory/decoder oracle",
-        "jobs": [{"pkg": "recorder-main", "test": "TestVerif_C10", "shards": (16, 16), "timeout": (600, 3000), "require": ["crash_points", "complete_recordings_seen", "hook_scans_in_children"]}],
+        "jobs": [{"pkg": "recorder-main-dephooks", "test": "TestVerif_C10", "shards": (16, 16), "timeout": (600, 3000), "require": ["crash_points", "complete_recordings_seen", "hook_scans_in_children", "crash_points_inside_cptv_writer", "same_frame_start_repetitions"]}],
     },
     "C11": {
         "title": "Finished files decode to exactly the recorded frames, metadata and settings",
